@@ -94,6 +94,14 @@ fn generate(cli: &Cli) -> Vec<Case> {
             out.push(Case { class: String::new(), pre_login: Duration::ZERO, ci_delay: Duration::ZERO, lat: [Duration::ZERO; 3], echo: e, unsolicited: false, ka_write_stall: Some(k), disc_write_stall: None, ci_split: None, extra_split: None, extra_kind: 0, chatty_every: None, seed: rng.u64() });
         }
     }
+    // the first Keep Alive is taken slowly by the client (a part at once, the rest 3 s later) while
+    // routing simply goes on: when the next one is due it decides as for any other client
+    // (encoded as ka_write_stall = 100 + cut)
+    for k in [0usize, 1, 5, 9] {
+        for e in [EchoKind::Never, EchoKind::Prompt, EchoKind::WrongId] {
+            out.push(Case { class: String::new(), pre_login: Duration::ZERO, ci_delay: Duration::ZERO, lat: [Duration::ZERO; 3], echo: e, unsolicited: false, ka_write_stall: Some(100 + k), disc_write_stall: None, ci_split: None, extra_split: None, extra_kind: 0, chatty_every: None, seed: rng.u64() });
+        }
+    }
     // the timeout Disconnect is half written when discovery completes (cuts across the frame)
     for k in [1usize, 2, 3, 5, 9, 15, 25] {
         for e in [EchoKind::Never, EchoKind::WrongId] {
@@ -225,7 +233,7 @@ fn generate(cli: &Cli) -> Vec<Case> {
         };
         c.class = format!("ci-{}/pre-{}/disc-{}/filter-{}/strat-{}/{:?}{}", bucket(c.ci_delay), bucket(c.pre_login), bucket(c.lat[0]), bucket(c.lat[1]), bucket(c.lat[2]), c.echo, if c.unsolicited { "/unsolicited-echo" } else { "" });
         if let Some(k) = c.ka_write_stall {
-            c.class = format!("keep-alive-half-written@{k}/{:?}", c.echo);
+            c.class = if k >= 100 { format!("keep-alive-taken-3s-late@{}/{:?}", k - 100, c.echo) } else { format!("keep-alive-half-written@{k}/{:?}", c.echo) };
         }
         if let Some(k) = c.disc_write_stall {
             c.class = format!("timeout-disconnect-half-written@{k}/{:?}", c.echo);
@@ -361,9 +369,16 @@ fn run_case(c: &Case) -> Outcome {
         let t_ci = cal.client.sent.iter().find(|s| s.label == "ClientInformation").map(|s| s.t_ns).unwrap_or(0);
         lat = [Duration::from_nanos(cal_ka[0].saturating_sub(t_ci) + SEC), Duration::ZERO, Duration::from_secs(30)];
         let offset: usize = cal.client.received.iter().take_while(|r| !matches!(r.pkt, Ok(Pkt::ConfKeepAliveOut { .. }))).map(|r| r.frame_len).sum();
-        stall_plan = Some(vp_sim::simnet::WritePlan { steps: vec![], stalls: vec![(offset + k, Duration::from_secs(2))] });
-        // what the transport holds back is not the server's delay
-        stall_allowance = 2 * SEC;
+        if k >= 100 {
+            // routing goes on for a minute; the client takes the rest of the frame 3 s late
+            lat = [Duration::from_secs(60), Duration::ZERO, Duration::ZERO];
+            stall_plan = Some(vp_sim::simnet::WritePlan { steps: vec![], stalls: vec![(offset + k - 100, Duration::from_secs(3))] });
+            stall_allowance = 3 * SEC;
+        } else {
+            stall_plan = Some(vp_sim::simnet::WritePlan { steps: vec![], stalls: vec![(offset + k, Duration::from_secs(2))] });
+            // what the transport holds back is not the server's delay
+            stall_allowance = 2 * SEC;
+        }
     }
     if let Some(k) = c.disc_write_stall {
         // discovery completes 1 s after the tick at which the Disconnect is due, selection takes 5 s more
